@@ -114,6 +114,7 @@ func sizeAdversarialProfile(r *Rng, cfg Config) *Profile {
 		"a.append": 8, "a.insert": 12, "a.set": 12, "a.remove": 14, "a.get": 1,
 		"m.set": 22, "m.remove": 12, "m.get": 1,
 		"settype": 2, "popall": 1, "reget": 1, "commit": 3, "dropcache": 1, "reopen": 1, "new": 2,
+		"a.fill": 2, "m.fill": 2, "a.drain": 2, "m.drain": 2,
 	}
 	return &Profile{
 		Name: "size-adversarial", W: w, MaxRoots: r.Range(1, 4), Owners: []uint64{1, 2, 0, 0x0102030405060708}[:r.Range(1, 4)],
